@@ -184,6 +184,10 @@ class Ctx:
             if self.known_hits[k["id"]]:
                 print("KNOWN-FINDING: property=%s %s: %s (%d cases)" % (self.prop, k["id"], k["what"], self.known_hits[k["id"]]))
         n_obl = len(self.theorems)
+        if level == "proof" and n_obl == 0:
+            # no theorem registered for this property (yet): the run is correspondence-only and says so
+            level = "other"
+            explanation = "NO THEOREM REGISTERED for this property in lean/Audit.lean at this commit: this run is a differential correspondence check only. " + explanation
         discharged = 0
         if self.lean_ok:
             discharged = sum(1 for t in self.theorems if t in self.axioms and set(self.axioms[t]) <= leanio.ALLOWED_AXIOMS)
